@@ -132,6 +132,13 @@ func (dr DateRange) Compare(dr2 DateRange) DateRangeComparison {
 	start := compareDatesForLetter(dr.start, dr2.start, dr2.end)
 	end := compareDatesForLetter(dr.end, dr2.start, dr2.end)
 
+	// When dr2 is a single day its start and end are the same day. The end of
+	// dr must then be classified against the end of dr2, otherwise a single
+	// day would not be equal to itself.
+	if end == "e" && compareDatesForLetter(dr.end, dr2.end, dr2.end) == "e" {
+		end = "E"
+	}
+
 	return dateRangeCompareMatrix[start+end]
 }
 
